@@ -7,6 +7,7 @@ import (
 
 	"github.com/git-lfs/git-lfs/v3/config"
 	"github.com/git-lfs/git-lfs/v3/errors"
+	"github.com/git-lfs/git-lfs/v3/tools"
 )
 
 // verifTempFileStub replaces lfs.TempFile (which needs a configured
@@ -82,7 +83,10 @@ func verifInput() (in string, chunks []string) {
 		trail := []string{"", "\n", "\r\n", "\n\n"}[verifChoose("head.trail", 4)]
 		head = "version https://git-lfs.github.com/spec/v1\noid sha256:" + oid + "\nsize " + size + trail
 	case 1:
-		head = ""
+		// nothing, or white space only
+		head = verifNondetString("head.ws")
+		verifAssumeClass(head, "asciiws")
+		verifAssume(len(head) <= 3)
 	}
 	t1 := ""
 	if hasT1 {
@@ -117,7 +121,12 @@ func VerifC01_CopyToTemp() {
 	verifKnown("C01-F1-short-first-read", len(chunks) > 1 && len(chunks[0]) < 1024 && len(in) > len(chunks[0]))
 	verifKnown("C01-F2-filesize-not-beyond-first-1024", fileSize >= 0 && fileSize <= 1024 && len(in) > 1024)
 	f := &GitFilter{}
-	oid, size, tmp, err := f.copyToTemp(rd, fileSize, nil)
+	var cb tools.CopyCallback
+	if verifChoose("with.progress.callback", 2) == 1 {
+		verifAssume(len(in) <= 50000) // the callback path copies in 32 KiB reads
+		cb = func(total, soFar int64, last int) error { return nil }
+	}
+	oid, size, tmp, err := f.copyToTemp(rd, fileSize, cb)
 	if err != nil {
 		verifAssert(errors.IsCleanPointerError(err), "cleaning fails only to say that the input already is a pointer")
 		verifCover("already-a-pointer")
@@ -126,6 +135,8 @@ func VerifC01_CopyToTemp() {
 		verifAssert(len(in) < 1024, "only inputs shorter than 1024 bytes are taken for pointers")
 		p, derr := DecodePointer(strings.NewReader(in))
 		verifAssert(derr == nil && p != nil, "only inputs that parse as pointers are taken for pointers")
+		// independent of the decoder: every non-empty pointer names its oid
+		verifAssert(strings.Contains(in, "oid sha256:"), "content without an oid line is never taken for a pointer")
 		return
 	}
 	verifCover("stored")
